@@ -213,6 +213,20 @@ func IsAPICoverage(name string) bool { return strings.HasSuffix(name, "#api") }
 // IsSharedReceiver: read-only methods called on shared objects (name suffix #ro).
 func IsSharedReceiver(name string) bool { return strings.HasSuffix(name, "#ro") }
 
+// IsFailing: calls that fail (name suffix #fail).
+func IsFailing(name string) bool { return strings.HasSuffix(name, "#fail") }
+
+// recovered runs f as a caller that recovers from panics would.
+func recovered(f func() []byte) (out []byte) {
+	defer func() {
+		if p := recover(); p != nil {
+			out = []byte("panic")
+		}
+	}()
+
+	return f()
+}
+
 func errByte2(b bool) byte {
 	if b {
 		return 1
@@ -230,7 +244,7 @@ var CorePartner = map[string]bool{"HashToScalar(M,D[:18])": true, "Element.Subtr
 func PairWanted(a, b string) bool {
 	class := func(n string) int {
 		switch {
-		case IsSharedReceiver(n):
+		case IsSharedReceiver(n), IsFailing(n):
 			return 3
 		case IsAPICoverage(n):
 			return 2
@@ -289,6 +303,40 @@ func init() { rand.Reader = constReader{} }
 // Ops is the alphabet.
 var Ops = []Op{
 	{"Scalar.Random", func(sh *Shared) []byte { return rawScalar(big.NewInt(9)).Random().Encode() }},
+	// failing calls, recovered by the caller as a server would (#fail: paired with each other, themselves and the core
+	// partners): a lock, a pooled object or a flag that a panic or error path leaves behind blocks or misleads the
+	// OTHER thread
+	{"HashToScalar(M, zero-length window of D) recovered #fail", func(sh *Shared) []byte {
+		return recovered(func() []byte { return secp256k1.HashToScalar(sh.M, sh.D18[:0]).Encode() })
+	}},
+	{"HashToGroup(M, nil DST) recovered #fail", func(sh *Shared) []byte {
+		return recovered(func() []byte { return secp256k1.HashToGroup(sh.M, nil).Encode() })
+	}},
+	{"Element.Decode(EU[:64]) + DecodeHex(bad) rejected #fail", func(sh *Shared) []byte {
+		e := own()
+		err1 := e.Decode(sh.EU[:64])
+		err2 := e.DecodeHex("02zz")
+
+		return append(e.Encode(), errByte(err1), errByte(err2))
+	}},
+	{"Scalar.Decode(M) + DecodeHex(odd) rejected #fail", func(sh *Shared) []byte {
+		s := rawScalar(big.NewInt(9))
+		err1 := s.Decode(sh.M)
+		err2 := s.DecodeHex("abc")
+
+		return []byte{errByte(err1), errByte(err2)}
+	}},
+	{"(*Element)(nil).Add(E1) / (*Scalar)(nil).Add(S1) recovered #fail", func(sh *Shared) []byte {
+		var (
+			e *secp256k1.Element
+			s *secp256k1.Scalar
+		)
+
+		a := recovered(func() []byte { return e.Add(sh.E1).Encode() })
+		b := recovered(func() []byte { return s.Add(sh.S1).Encode() })
+
+		return append(a, b...)
+	}},
 	// receivers that are the affine generator (what Base() returns, Z = 1): a fixed-base table or any other
 	// "this is G" fast path - typically built lazily on first use - is only reached through them
 	{"Base().Multiply(S1)", func(sh *Shared) []byte { return secp256k1.Base().Multiply(sh.S1).Encode() }},
